@@ -104,7 +104,7 @@ func evalC18(c *Ctx, gc GCase) string {
 	}
 	a, err := yg.NewAdapt(res.Root)
 	if err != nil {
-		return fmt.Sprintf("yaccgo's grammar tables are malformed: %v\n%s", err, gc.Text)
+		return adaptProblem(c, err, gc.Text)
 	}
 	l := res.Root.LALR1
 	G := l.G
